@@ -105,7 +105,13 @@ class CBMRunner:
             deleg = {}
             for t, pn, at in (("cap", "CapacityDelegations", DelegationType.CAPACITY), ("lab", "LabelDelegations", DelegationType.LABEL)):
                 text = d.get(pn)
-                ds = Delegations.from_json(json_str=text, atype=at) if isinstance(text, str) else None
+                if not isinstance(text, str) or text == "":
+                    continue                                  # no text / the erased marker: nothing delegated
+                try:
+                    ds = Delegations.from_json(json_str=text, atype=at)
+                except Exception as e:                        # noqa: an undecodable stored delegation is an observation
+                    deleg[t] = {"?undecodable": type(e).__name__} if as_cbm else "?undecodable"
+                    continue
                 if ds is None:
                     continue
                 ent = {did: _det_token(dl.get_details_as_dict()) for did, dl in ds.delegations.items()}
